@@ -395,6 +395,9 @@ func (h *hand) deliver(m *msg) {
 	// fault phase ends after FaultSteps deliveries
 	if h.faultsOn && len(r.steps) >= h.fc.FaultSteps {
 		h.faultsOn = false
+		// recorded in the trace, so that the replay executor applies the same
+		// progress bound from the same point
+		r.steps = append(r.steps, sim.Step{T: h.loop.Now, Actor: "sim", Op: "calm"})
 		h.calmAt = len(r.steps)
 		for _, c := range h.cl {
 			c.stalled = false
@@ -485,6 +488,10 @@ func (h *hand) simulate() {
 		h.cl[i] = &client{id: i, sentVer: -1}
 	}
 	h.faultsOn = !h.fc.None
+	if !h.faultsOn {
+		r.steps = append(r.steps, sim.Step{Actor: "sim", Op: "calm"})
+		h.calmAt = len(r.steps)
+	}
 	h.cap = h.fc.FaultSteps + calmBudget(n) + 60
 	h.broadcast()
 	h.loop.After(usHeartbeat, h.heartbeat)
@@ -687,6 +694,7 @@ func (w World) Replay(c *sim.Case, o sim.Options) *sim.Result {
 	}
 	r.srv = srv
 	r.startChecks(permOK, &cfg)
+	calmAt := -1
 	for i := range c.Steps {
 		if r.dead {
 			break
@@ -694,11 +702,21 @@ func (w World) Replay(c *sim.Case, o sim.Options) *sim.Result {
 		st := c.Steps[i]
 		idx := len(r.steps)
 		r.steps = append(r.steps, st)
+		if st.Actor == "sim" {
+			if st.Op == "calm" && calmAt < 0 {
+				calmAt = len(r.steps)
+			}
+			continue
+		}
 		d := srv.deliver(&r.steps[idx], idx)
 		r.observe(d)
 	}
 	if !r.dead {
-		r.closer()
+		if calmAt >= 0 && r.srv.state().Status.CurrentEvent != "GameClosed" && len(r.steps)-calmAt > calmBudget(r.n) {
+			r.viol("C06", "hand-not-finished-within-bound", fmt.Sprintf("%d deliveries after the faults stopped (bound %d), still at %s", len(r.steps)-calmAt, calmBudget(r.n), fmtState(r.srv.state())), len(r.steps))
+		} else {
+			r.closer()
+		}
 	}
 	return r.finish(cc)
 }
